@@ -601,6 +601,19 @@ vharness! {
     }
 }
 
+/// spec value of a v3 CONNACK return code (table 3.1), independent of the crate's discriminants
+fn connack3_num(r: ConnectAckReason) -> u8 {
+    match r {
+        ConnectAckReason::ConnectionAccepted => 0,
+        ConnectAckReason::UnacceptableProtocolVersion => 1,
+        ConnectAckReason::IdentifierRejected => 2,
+        ConnectAckReason::ServiceUnavailable => 3,
+        ConnectAckReason::BadUserNameOrPassword => 4,
+        ConnectAckReason::NotAuthorized => 5,
+        ConnectAckReason::Reserved => 6,
+    }
+}
+
 vharness! {
     //@ props: C02
     //@ tier: quick
@@ -615,6 +628,10 @@ vharness! {
         assert!(r.is_ok() == want_ok);
         if let Ok(p) = &r {
             assert!(stable3(p, 0x20));
+            if let Packet::ConnectAck(a) = p {
+                assert!(a.session_present == (data[0] & 1 == 1));
+                assert!(connack3_num(a.return_code) == data[1], "decoded return code differs from the byte");
+            }
         }
         vcover!(r.is_ok(), "accepted");
         vcover!(len >= 2 && data[0] & 0xFE != 0, "reserved flag rejected");
@@ -644,6 +661,16 @@ vharness! {
         assert!(r.is_ok() == want_ok);
         if let Ok(p) = &r {
             assert!(stable3(p, 0x90));
+            if let Packet::SubscribeAck { packet_id, status } = p {
+                assert!(packet_id.get() == ((data[0] as u16) << 8) | data[1] as u16);
+                assert!(status.len() == len - 2);
+                let mut i = 0;
+                while i < status.len() {
+                    let w = match status[i] { SubscribeReturnCode::Success(q) => vh::qos_num(q), SubscribeReturnCode::Failure => 0x80 };
+                    assert!(w == data[2 + i], "decoded return code differs from the byte");
+                    i += 1;
+                }
+            }
         }
         vcover!(r.is_ok() && len == 6, "four return codes");
         vcover!(r.is_err() && len == 4, "bad return code");
@@ -701,6 +728,17 @@ vharness! {
         assert!(r.is_ok() == want_ok);
         if let Ok(p) = &r {
             assert!(stable3(p, 0x82));
+            if let Packet::Subscribe { packet_id, topic_filters } = p {
+                let mut rd = Rd::new(&data[..len]);
+                assert!(rd.u16() == packet_id.get());
+                let mut i = 0;
+                while i < topic_filters.len() {
+                    assert!(rd.expect_lp(topic_filters[i].0.as_bytes()));
+                    assert!(rd.u8() & 3 == vh::qos_num(topic_filters[i].1));
+                    i += 1;
+                }
+                assert!(rd.at_end() && !rd.bad, "decoded filters differ from the bytes");
+            }
         }
         vcover!(r.is_ok() && len == 9, "accepted at the length bound");
         vcover!(r.is_err() && len >= 5 && data[2] == 0 && data[3] as usize > len - 4, "inner length beyond the frame");
@@ -723,6 +761,16 @@ vharness! {
         assert!(r.is_ok() == want_ok);
         if let Ok(p) = &r {
             assert!(stable3(p, 0xA2));
+            if let Packet::Unsubscribe { packet_id, topic_filters } = p {
+                let mut rd = Rd::new(&data[..len]);
+                assert!(rd.u16() == packet_id.get());
+                let mut i = 0;
+                while i < topic_filters.len() {
+                    assert!(rd.expect_lp(topic_filters[i].as_bytes()));
+                    i += 1;
+                }
+                assert!(rd.at_end() && !rd.bad, "decoded filters differ from the bytes");
+            }
         }
         vcover!(r.is_ok() && len == 8, "accepted at the length bound");
         vcover!(r.is_err() && len > 2, "rejected");
@@ -749,7 +797,7 @@ vharness! {
     //@ functions: v3 decode::decode_packet, decode_connect_packet, ConnectFlags::from_bits, QoS::try_from
     //@ bounds: every body of 0..=16 arbitrary bytes
     //@ unwindset: utf8_is_valid=8 spec_utf8=8 slice_eq=8 expect_lp=8
-    //@ mem: 10  timeout: 1200
+    //@ mem: 20  timeout: 1800
     //@ desc: v3 CONNECT body: wrong protocol name or level, reserved flag bit, will QoS 3, truncated or over-long inner fields, invalid UTF-8 and an empty client id without clean session are errors; accepted otherwise; stable. Leniencies of the decoder: bytes after the last field are ignored; will QoS/retain bits without the will flag are ignored
     fn bd3_connect() unwind(18) {
         let data: [u8; 16] = vk::any_bytes::<16>();
